@@ -5,6 +5,8 @@ import (
 	"fmt"
 	"io"
 	"os"
+	"strconv"
+	"strings"
 	"sync"
 
 	"github.com/logrange/logrange/api"
@@ -177,8 +179,195 @@ func sectionCached(rng *vh.Rng) {
 		}(i)
 	}
 	wg.Wait()
+	for _, rc := range repositionCases() {
+		runRepositionCase(rc, "cached", sec, false)
+	}
 	res.Sample(map[string]interface{}{"section": "cached", "case": cases[0]})
 	res.Done(sec)
+}
+
+// ---------------------------------------------------------------------------------------------
+// reposition: a server-held RANGE cursor (WaitTimeout > 0 makes the server keep it) that is asked — with the same ReqId — to
+// continue from a position that is NOT the one it stands at, inside the chunk its iterator has open: a re-sent request (the
+// answer was lost), a rewind to a saved position, a jump ahead. cursor.ApplyState → applyStatePos → JIterator.SetPos must move
+// the OPEN chunk iterator. Every page vs SPEC (the next `limit` in-range events at or behind the position) and vs the model.
+
+type repositionCase struct {
+	N     int    `json:"n"` // records, ts = 1000 + i, one chunk
+	Lo    *int64 `json:"lo,omitempty"`
+	Hi    *int64 `json:"hi,omitempty"`
+	Limit int    `json:"limit"`
+	// after 4 plain pages: the steps, each "page:<k>" (re-send the request that followed page k; 0 = the first request's answer)
+	// or "idx:<i>" (the saved position with the record index replaced by i)
+	Steps []string `json:"steps"`
+}
+
+func runRepositionCase(c repositionCase, section string, sec *vh.Section, verbose bool) {
+	dir := lrsrv.NewDir()
+	defer os.RemoveAll(dir)
+	srv, err := lrsrv.Start(dir, lrsrv.Opts{MaxChunkSize: 250000, NoRPC: true})
+	if err != nil {
+		res.Note("reposition: %v", err)
+		return
+	}
+	defer srv.Stop()
+	r := &sysRun{h: history{ChunkSize: 250000, Regime: "ties"}, srv: srv, ctx: context.Background(), sec: sec, section: section}
+	rng := vh.NewRng(int64(c.N))
+	r.ask("rw.reset 250000", func(string) {})
+	if !r.doWrite(op{Kind: "write", Segs: []seg{{T: 1000, N: c.N, D: 1}}}, rng) {
+		return
+	}
+	if len(r.chunks()) != 1 {
+		res.Note("reposition: the records did not stay in one chunk")
+		return
+	}
+	q := rangeQuery(c.Lo, c.Hi)
+	elo, ehi, _, err := effectiveBounds(q, c.Lo, c.Hi)
+	if err != nil {
+		res.Note("reposition: %v", err)
+		return
+	}
+	var spec []int // record index = sequence number (one chunk)
+	for s, t := range r.allTs {
+		if inB(t, elo, ehi) {
+			spec = append(spec, s)
+		}
+	}
+	r.ask(fmt.Sprintf("c.open %s %s", optS(elo), optS(ehi)), func(string) {})
+	// expected page from a record index on
+	from := func(idx int) []int {
+		var out []int
+		for _, s := range spec {
+			if s >= idx && len(out) < c.Limit {
+				out = append(out, s)
+			}
+		}
+		return out
+	}
+	posIdx := func(pos string) (string, int, bool) { // "<journal>=<16 hex chunk id><8 hex index>"
+		if len(pos) < 8 || strings.Contains(pos, ":") {
+			return "", 0, false
+		}
+		v, err := strconv.ParseUint(pos[len(pos)-8:], 16, 32)
+		return pos[:len(pos)-8], int(v), err == nil
+	}
+	req := &api.QueryRequest{Query: q, Limit: c.Limit, WaitTimeout: 1}
+	var saved []api.QueryRequest // saved[k] = the request that follows page k
+	stand := 0                   // record index the cursor stands at (model / SPEC)
+	doPage := func(what string, rq *api.QueryRequest, startIdx int, setpos bool) bool {
+		rqc := *rq
+		qr, err := srv.Querier.Query(r.ctx, &rqc)
+		if err == io.EOF && qr != nil {
+			err = nil
+		}
+		if err != nil || qr == nil {
+			res.SpecFail(vh.SpecFailure{Section: section, Kind: "query-error", Input: c, Impl: fmt.Sprint(err), Spec: "page", What: "reposition: " + what + " failed"})
+			return false
+		}
+		var page []int
+		for _, e := range qr.Events {
+			page = append(page, seqOfMsg(e.Message))
+		}
+		want := from(startIdx)
+		key := ""
+		if setpos && len(want) > 0 {
+			key = fmt.Sprintf("%p %s", r, what)
+		}
+		res.Eval(sec, key)
+		res.Dist(sec, "reposition:"+strings.SplitN(what, ":", 2)[0])
+		pageS := runsOf(page)
+		if setpos {
+			r.ask(fmt.Sprintf("r.setpos 10 %d", startIdx), func(string) {})
+		}
+		r.ask(fmt.Sprintf("c.page %d", c.Limit), func(ans string) {
+			if verbose {
+				fmt.Printf("%s: impl=%s model=%s spec=%s\n", what, short(pageS), short(ans), short(runsOf(want)))
+			}
+			if ans != pageS {
+				res.Mismatch(vh.Mismatch{Section: section, Function: "cached RANGE cursor continued from another position inside the open chunk (cursor.ApplyState → JIterator.SetPos): " + what, Input: c, Impl: short(pageS), Model: short(ans)})
+			}
+		})
+		if pageS != runsOf(want) {
+			kind := "hidden-event"
+			if len(page) > len(want) {
+				kind = "extra-event"
+			}
+			for _, s := range page {
+				if !inB(r.allTs[s], elo, ehi) {
+					kind = "extra-event"
+				}
+			}
+			res.SpecFail(vh.SpecFailure{Section: section, Kind: kind, Input: c, Impl: short(pageS), Spec: short(runsOf(want)),
+				What: fmt.Sprintf("a cached RANGE [%s:%s] cursor (limit %d) asked by its ReqId to continue at record %d of the open chunk while it stood at record %d (%s) delivered %s; the filtered unbounded read from there gives %s", optS(elo), optS(ehi), c.Limit, startIdx, stand, what, short(pageS), short(runsOf(want)))})
+			return false
+		}
+		saved = append(saved, qr.NextQueryRequest)
+		if len(page) > 0 {
+			stand = page[len(page)-1] + 1
+		}
+		nr := qr.NextQueryRequest
+		req = &nr
+		return true
+	}
+	// four plain pages
+	starts := []int{0}
+	for k := 0; k < 4; k++ {
+		if !doPage(fmt.Sprintf("plain:%d", k), req, stand, false) {
+			r.flush()
+			return
+		}
+		starts = append(starts, stand)
+	}
+	for _, st := range c.Steps {
+		kv := strings.SplitN(st, ":", 2)
+		n, _ := strconv.Atoi(kv[1])
+		switch kv[0] {
+		case "page":
+			if n >= len(saved) || n+1 >= len(starts) {
+				continue
+			}
+			rq := saved[n]
+			if !doPage(st, &rq, starts[n+1], true) {
+				r.flush()
+				return
+			}
+		case "idx":
+			rq := *req
+			pre, _, ok := posIdx(rq.Pos)
+			if !ok {
+				res.Note("reposition: unexpected position text %q", rq.Pos)
+				r.flush()
+				return
+			}
+			rq.Pos = fmt.Sprintf("%s%08X", pre, n)
+			if !doPage(st, &rq, n, true) {
+				r.flush()
+				return
+			}
+		}
+		starts = append(starts, stand)
+	}
+	r.flush()
+}
+
+// flush sends the collected model requests and runs the checks
+func (r *sysRun) flush() {
+	ans, err := vh.Batch(args.Driver, r.lines)
+	if err != nil {
+		res.Note("%s: driver: %v", r.section, err)
+	}
+	for i := range ans {
+		r.checks[i](ans[i])
+	}
+}
+
+func repositionCases() []repositionCase {
+	return []repositionCase{
+		// re-send an earlier request (rewind inside the open chunk), jump ahead to a saved later one, crafted positions earlier / later
+		{N: 400, Lo: i64p(1050), Hi: i64p(1175), Limit: 20, Steps: []string{"page:0", "page:2", "page:1", "idx:60", "idx:170", "idx:0", "idx:172"}},
+		{N: 400, Lo: i64p(1050), Limit: 7, Steps: []string{"page:1", "page:3", "idx:55", "idx:390", "idx:56"}},
+		{N: 600, Hi: i64p(1100), Limit: 13, Steps: []string{"page:0", "idx:80", "idx:3", "page:2"}},
+	}
 }
 
 // ---------------------------------------------------------------------------------------------
